@@ -71,8 +71,13 @@ PROPS = {
                       "and align groups in both modes), an IR without text prints whitespace only, and ir_flat_width sees text lengths "
                       "only. Tie: every run the real printer (hook H5) and the model print the IRs the real formatter builds for the "
                       "corpus and seeded random IRs over all node kinds, byte for byte. Whether the rule set puts every token into the "
-                      "IR is decided by search: reformat_lua_code on generated valid Lua, the bundled std annotation files and "
-                      "erroneous inputs x configurations must reparse, keep the normalised token sequence and the comment structure, "
+                      "IR is decided by search: reformat_lua_code on generated valid Lua (incl. operator/number adjacency, "
+                      "multi-argument calls with string/table/closure arguments, compound assignments and continue under the LuaJIT "
+                      "extension level, comments behind break/goto/label/return, doc tags with attributes and generics, escapes before "
+                      "quotes, last-line trailing comments without final newline), the bundled std annotation files and erroneous inputs "
+                      "x configurations — hand-picked combinations, EVERY single-option toggle of the whole option space (the options "
+                      "are enumerated from config/mod.rs and the serialised default configuration, cross-checked, so a new option is "
+                      "picked up), and random combinations; the hand-written corpus meets every configuration — must reparse, keep the normalised token sequence and the comment structure, "
                       "and return erroneous input unchanged.",
         "level_note": "Trusted: Lean kernel, harness (generator, parser-based token normaliser), correspondence run as the tie, the "
                       "hook's ir_to_sexpr exporter (source nodes/tokens are resolved to the text they print). Not proved: IfBreak "
@@ -87,7 +92,10 @@ PROPS = {
         "level_text": "Partial. fmt(fmt x) = fmt x is a property of the whole formatter, whose rule set (IR construction, which also "
                       "reads the layout of the source) is not modelled: it is decided by search only (generated valid Lua, std "
                       "annotation files, erroneous and mutated inputs x configurations, two passes compared), and the search does find "
-                      "inputs that need two passes; those are listed as open known findings keyed by predicates over the input. "
+                      "inputs that need two passes; those are listed as open known findings keyed by narrow predicates over input and configuration (an option or "
+                      "two plus a construct), and the structural ones only apply when the two passes differ in line breaks, "
+                      "indentation and trailing table separators ALONE — a second pass that changes spacing inside a line or any other "
+                      "character is never covered by a finding. Same configuration space as C05 (every single-option toggle). "
                       "Kernel-checked theorems cover the printer half of the mechanism 'layout decisions are made from token widths "
                       "only': fits_impl (any stack, break map, width, fuel), has_hard_line/the group decision of print_doc, and "
                       "ir_flat_width (alignment columns) are invariant under replacing every text of the IR by a text of the same "
